@@ -62,6 +62,8 @@ class HandlerPrims:
         if spec[0] == "I":
             data = W(("opimm", k), 64)
             return ("agg", OPERAND, OP_IMMEDIATE, (data, INT(spec[1], 8)))
+        if spec[0] == "IC":
+            return ("agg", OPERAND, OP_IMMEDIATE, (INT(spec[2], 64), INT(spec[1], 8)))
         if spec[0] == "E":
             return "ERR"
         return None
